@@ -32,6 +32,9 @@ def make_packages(seed, npk, per_file, files_per_pkg=1, malformed_frac=0.0, opts
     zf = declgen.sync_fanin_leaves(9500)
     for i in range(0, len(zf), 8):
         pkgs.append(dict(name="yz%d" % (i // 8), files=[dict(fname="a.go", decls=zf[i:i + 8])], kind="valid"))
+    me = declgen.multi_edge_decls(9700)
+    for i in range(0, len(me), 8):
+        pkgs.append(dict(name="yw%d" % (i // 8), files=[dict(fname="a.go", decls=me[i:i + 8])], kind="valid"))
     cm = declgen.ctx_mid_decls(8000)
     pkgs.append(dict(name="cm0", files=[dict(fname="a.go", decls=cm)], kind="valid"))
     # systematic stream (C05): all async masks x all discovery orders of 2..3 parameterless providers
